@@ -16,6 +16,9 @@ RULES = {
              "a block of its own, so the loop that walks the entries of one unit (the loop around Block::read on the per-unit stub) must leave through a test of the very offset it "
              "reads at against DEFAULT_BLOCK_SIZE before it can iterate again. Without that bound a unit that is filled to its last byte runs on into the next unit, whose entries are "
              "then recovered twice (once as the tail of this block, once as their own block) or attributed to a foreign topic",
+    "C06.4": "reads do not depend on a layout field that a restart changes: while the allocator can hand out blocks whose limit differs from the limit recovery re-creates them with "
+             "(C06.1), no function on the read / recovery side (Block::read, read_next, batch_read_for_topic, the recovery scan and recount, and what they call outside the writer "
+             "and allocator modules) may load Block.limit. A reader that consults the limit answers differently for the same bytes before and after a restart",
 }
 
 
@@ -197,6 +200,30 @@ def check_entry_scan_bound(ctx, facts):
     ctx.floor("C06.3", "entry-scan loops in startup_chore", n, 1)
 
 
+def check_read_side_ignores_limit(ctx, facts):
+    if not any(v["rule"] == "C06.1" and "block-limit-differs" in v["what"] for v in ctx.violations):
+        ctx.ok("C06.4", "read side", "vacuous: the allocator never hands out a block whose limit differs from recovery's (C06.1 holds)", None, None, trivial=True)
+        return
+    roots = ["block::Block::read", "read_next", "batch_read_for_topic", "walrus::Walrus::startup_chore", "walrus::Walrus::rebuild_topic_entry_counts_after_recovery"]
+    names = set()
+    for r in roots:
+        b = facts.body(r)
+        names |= facts.closure_reach(b.name) | {b.name}
+    n = 0
+    for nm in sorted(names):
+        b = facts.bodies[nm]
+        F = common.short_fn(nm)
+        if b.j.get("derived") or re.search(r"(^|::)(writer|allocator)::", F):
+            continue
+        n += 1
+        for site in b.field_loads("block::Block", "limit"):
+            ctx.violate("C06.4", F, "read-side-depends-on-block-limit", b.relfile, site.line,
+                        "%s loads Block.limit: recovery re-creates every block with limit = DEFAULT_BLOCK_SIZE while the allocator hands out larger blocks for large entries, so this "
+                        "code treats the same on-disk entry differently before and after a restart" % F)
+    ctx.floor("C06.4", "read/recovery-side bodies inspected", n, 5)
+    ctx.ok("C06.4", "read side", "bodies on the read/recovery side inspected for loads of Block.limit: %d" % n, None, None)
+
+
 def run(ctx):
     for k, v in RULES.items():
         ctx.rule(k, v)
@@ -204,6 +231,7 @@ def run(ctx):
     check_layout(ctx, facts)
     check_scan(ctx, facts)
     check_entry_scan_bound(ctx, facts)
+    check_read_side_ignores_limit(ctx, facts)
     ctx.assume("NOT decided: cursor translation across recovery's synthetic block ids, counts after restart, file ordering under clock regression (names come from wall-clock milliseconds)")
     return {
         "explanation": "sibling agreement between the allocator's block layout and the recovery scan's stride/limit (symbolic expressions on MIR), and a loop-exit rule on the natural loop "
